@@ -63,3 +63,103 @@ def progress_unit():
 
 
 UNITS = [state_unit(), progress_unit()]
+
+
+# ================================================================================================ MermaidNetwork.__src: one line per edge (C19, line count)
+# Length-only text theory of contracts/text.py (nl = number of line breaks): the emitted source has the heading line, then for every member task one
+# line per predecessor - or ONE Start line if it has none - and one style line per task that carries a bar style.  Domain: task names are texts without
+# line breaks (the property's quantifier: single-line names); the rendered style dictionary is a text without line breaks (assumed).  What the lines SAY
+# (ids, names, escaping, the arrow in a name - known finding A-29) stays with the bounded stand-in.
+from contracts.graph_theory import *
+from contracts.task import H, TASK_CLASSES
+from contracts.children import ChildrenPlugin
+from contracts.closure import dfs, same_heap, c_id
+from contracts.text import TXT, nl, cat, L as lit, TextPlugin, text_axioms
+from pyvc.unit import Unit          # (z3 exports a `Unit` of its own, re-exported by graph_theory)
+
+FN = 'pjplan/viz/mermaid/network.py'
+NET = REF('MermaidNetwork')
+NCL = dict(TASK_CLASSES); NCL['Task'] = dict(TASK_CLASSES['Task'], name=TXT); NCL['MermaidNetwork'] = {'wbs': W}
+has_style = Function('has_bar_style', T.z, BoolSort())
+edges_upto = Function('edge_lines_upto', ArraySort(LR.z, LT.z), ArraySort(T.z, LR.z), LT.z, IntSort(), IntSort()); styled_upto = Function('style_lines_upto', LT.z, IntSort(), IntSort())
+em2, pm2 = Const('em2', ArraySort(LR.z, LT.z)), Const('pm2', ArraySort(T.z, LR.z)); l2 = Const('l2', LT.z); i2 = Int('i2')
+COUNT_AX = [ForAll([em2, pm2, l2], edges_upto(em2, pm2, l2, 0) == 0, patterns=[edges_upto(em2, pm2, l2, 0)]),
+            ForAll([em2, pm2, l2, i2], Implies(i2 >= 0, edges_upto(em2, pm2, l2, i2 + 1) == edges_upto(em2, pm2, l2, i2) + If(ln(em2[pm2[at(l2, i2)]]) == 0, 1, ln(em2[pm2[at(l2, i2)]]))), patterns=[edges_upto(em2, pm2, l2, i2 + 1)]),
+            ForAll([l2], styled_upto(l2, 0) == 0, patterns=[styled_upto(l2, 0)]),
+            ForAll([l2, i2], Implies(i2 >= 0, styled_upto(l2, i2 + 1) == styled_upto(l2, i2) + If(has_style(at(l2, i2)), 1, 0)), patterns=[styled_upto(l2, i2 + 1)])]
+
+
+class _NetAxioms(list):
+    """the axioms about string literals depend on which literals the symbolic execution has met: evaluated when the solver asks for them"""
+    def __iter__(self): return iter(LIST_AX + COUNT_AX + text_axioms())
+    def __len__(self): return len(LIST_AX + COUNT_AX + text_axioms())
+
+
+class NetSrcPlugin(TextPlugin):
+    def ev_JoinedStr(self, eng, e, st):
+        """f-string: a text whose number of line breaks is that of its constant parts plus that of the embedded texts (numbers have none)"""
+        s = st; n = IntVal(sum(p.value.count('\n') for p in e.values if isinstance(p, ast.Constant)))
+        for p in e.values:
+            if isinstance(p, ast.FormattedValue):
+                s, v = eng.ev1(p.value, s)
+                if v.s == TXT: n = n + nl(v.e)
+                elif v.s != INT: raise Unsupported(f'f-string part of sort {v.s}')
+        r = fresh('fstring', TXT); s.assume(nl(r) == n)
+        return [(s, V(r, TXT))]
+
+    def ev_Attribute(self, eng, e, st):
+        if isinstance(e.ctx, ast.Load) and e.attr in ('__dict__', 'network_bar_style'):
+            s, o = eng.ev1(e.value, st)
+            if o.s == T:
+                s.oblige('safe/AttributeError-None', o.e != null, f'@{e.lineno}')
+                return [(s, V(o.e, S('TaskDictOf', T.z)))]
+        return NotImplemented
+
+    def cmp(self, eng, st, k, l_, r, line):
+        if k == 'In' and l_.s == TXT and r.s.name == 'TaskDictOf' and l_.e.eq(lit('network_bar_style')): return has_style(r.e)
+        return NotImplemented
+
+    def call(self, eng, e, st):
+        f = e.func
+        if isinstance(f, ast.Attribute) and f.attr == 'replace' and len(e.args) == 2:
+            s, v = eng.ev1(f.value, st)
+            if v.s == TXT and all(isinstance(a, ast.Constant) and isinstance(a.value, str) and '\n' not in a.value for a in e.args):
+                r = fresh('replaced', TXT); s.assume(nl(r) == nl(v.e))          # neither the removed nor the inserted piece contains a line break
+                return [(s, V(r, TXT))]
+        return TextPlugin.call(self, eng, e, st)
+
+
+def network_src_unit():
+    def build():
+        hc = lambda c: H(c.eng, c.st)
+        wbs = lambda c: Select(c.fld('MermaidNetwork', 'wbs'), c['self'])
+        TS = lambda c: dfs(hc(c).chl, hc(c).elems, hc(c).root[wbs(c)])
+        name = lambda c, t: Select(c.fld('Task', 'name'), t)
+        edges = lambda c, i: edges_upto(hc(c).elems, hc(c).pre, TS(c), i); npre = lambda c, t: ln(hc(c).P(t))
+
+        def c_tasks(eng, st, recv, args, kws, node):          # WBS.tasks (proved in contracts/closure.py): the depth-first listing of the members
+            h = H(eng, st); return [(st, V(dfs(h.chl, h.elems, h.root[recv.e]), LT))]
+
+        def c_style(eng, st, recv, args, kws, node):          # __dict_to_style: 'k:v' pairs joined by commas - assumed free of line breaks
+            r = fresh('style', TXT); st.assume(nl(r) == 0); return [(st, V(r, TXT))]
+        c_pre = lambda eng, st, recv, a, k, n: [(st, V(H(eng, st).pre[recv.e], LR))]
+        fc = {'sig': {'self': NET}, 'locals': {'res': TXT, 't': T, 'p': T, 't_name': TXT, 'p_name': TXT},
+              'requires': [('renderer-has-a-wbs', lambda c: And(c['self'] != NET.null, wbs(c) != W.null)),
+                           ('members-exist-their-predecessor-lists-exist-and-hold-no-None', lambda c: And(ForAll([i2], Implies(And(0 <= i2, i2 < ln(TS(c))), And(at(TS(c), i2) != null, hc(c).pre[at(TS(c), i2)] != LR.null)), patterns=[at(TS(c), i2)]),
+                                                                                                        ForAll([t_r, a_r], Implies(And(t_r != null, mem(hc(c).P(t_r), a_r)), a_r != null), patterns=[mem(hc(c).P(t_r), a_r)]))),
+                           ('names-are-single-line-texts', lambda c: ForAll([t_r], nl(name(c, t_r)) == 0, patterns=[name(c, t_r)]))],
+              'loops': {0: {'fingerprint': 'for t in self.wbs.tasks', 'invariant': [('edge-lines-so-far', lambda c: And(same_heap(c), c['_i0'] >= 0, c['_i0'] <= ln(TS(c)), nl(c['res']) == 1 + edges(c, c['_i0'])))]},
+                        1: {'fingerprint': 'for p in t.predecessors',
+                            'invariant': [('edge-lines-of-this-task-so-far', lambda c: And(same_heap(c), c['_i0'] >= 1, c['_i0'] <= ln(TS(c)), c['t'] == at(TS(c), c['_i0'] - 1), c['t'] != null, npre(c, c['t']) > 0,
+                                                                                       c['_i1'] >= 0, c['_i1'] <= npre(c, c['t']), nl(c['t_name']) == 0, nl(c['res']) == 1 + edges(c, c['_i0'] - 1) + c['_i1']))]},
+                        2: {'fingerprint': 'for t in self.wbs.tasks',
+                            'invariant': [('style-lines-so-far', lambda c: And(same_heap(c), c['_i2'] >= 0, c['_i2'] <= ln(TS(c)), nl(c['res']) == 1 + edges(c, ln(TS(c))) + styled_upto(TS(c), c['_i2'])))]}},
+              'ensures': [('C19/one-line-per-dependency-one-Start-line-per-task-without-predecessors-one-style-line-per-styled-task',
+                           lambda c: nl(c.result.e) == 1 + edges(c, ln(TS(c))) + styled_upto(TS(c), ln(TS(c)))), ('C19/reads-the-task-graph-only', same_heap)]}
+        contracts = {'prop:WBS.tasks': c_tasks, 'prop:Task.predecessors': c_pre, 'prop:Task.id': c_id, 'MermaidNetwork._MermaidNetwork__dict_to_style': c_style}
+        return Engine(FN, 'MermaidNetwork.__src', contracts, NCL, fc, plugins=[NetSrcPlugin(), ChildrenPlugin()]), _NetAxioms()
+    return Unit('MermaidNetwork.__src', FN, build, ['C19'], timeout_ms=15000)
+
+
+t_r, a_r = Consts('t_r a_r', T.z)
+UNITS += [network_src_unit()]
